@@ -627,6 +627,10 @@ class C09(Check):
             pass
         if spec.get('build') == 'yaml':
             yield with_key(trace, ['spec', 'build'], 'python')
+        if spec.get('matrix'):
+            # (the edge list of such a spec is derived from its matrices: dropping single edges or nodes would leave the
+            #  reference and the add_edges_from_matrix calls describing different models)
+            return
         from checks.c03 import shrink_spec
         for t in shrink_spec({'spec': spec, 'cfg': {'input': None}}):
             t2 = copy.deepcopy(trace)
